@@ -24,7 +24,7 @@ CONSTANTS
     Files,       \* the <<id, ext>> pairs that may exist in the source
     DirsU,       \* directory ids that may be created explicitly
     Scripts,     \* Key -> script, for the node keys
-    InitSrc,     \* initial content of every file in Files (None = absent)
+    InitSrcs,    \* set of initial sources: functions Files -> content (None = absent)
     InitDirs,    \* explicit directories present initially
     HasReloader, \* the cache was built with a hot-reloadable source
     FixGoi
@@ -83,8 +83,12 @@ Reach(g, frontier, seen) ==
 
 Affected(g, changed) == {d \in Reach(g, changed \cap DOMAIN g, {}) : d.k = "asset"}
 
-KeyLess(a, b) == \/ a.ty < b.ty    \* any fixed total order on keys will do (TLC compares strings)
-                 \/ (a.ty = b.ty /\ a.id < b.id)
+TypeSeq == <<"L0", "L1", "L2", "L3", "L4", "L5", "L6", "L7", "N0", "N1", "N2", "N3", "N4", "N5",
+             "DL0", "DL1", "DL2", "RL0", "RL1", "S0">>
+IdxOf(seq, x) == CHOOSE i \in 1..Len(seq) : seq[i] = x
+(* any fixed total order on keys will do *)
+KeyLess(a, b) == \/ IdxOf(TypeSeq, a.ty) < IdxOf(TypeSeq, b.ty)
+                 \/ (a.ty = b.ty /\ IdxOf(IdSeq, a.id) < IdxOf(IdSeq, b.id))
 
 (* A dependencies-first order of the affected assets w.r.t. the graph as it  *)
 (* is when the pass starts (what topological_sort_from yields on a DAG).     *)
@@ -116,12 +120,17 @@ ReloadOne(E, g, d) ==
               IN [E |-> E2, g |-> GraphInsert(g, d, r.deps), ok |-> TRUE, ran |-> TRUE, deps |-> r.deps]
          ELSE [E |-> r.E, g |-> g, ok |-> FALSE, ran |-> TRUE]
 
+(* The order of a pass is computed on the graph as it is when the pass starts *)
+(* (g0).  When a reload makes k depend on an asset that is reloaded in the    *)
+(* same pass and that the old graph did not order before k, the outcome       *)
+(* depends on the (hash) iteration order of the real sort: flagged `d8`.      *)
 RECURSIVE PassLoop(_, _, _, _, _, _)
 PassLoop(E, g, order, i, flag, g0) ==
     IF i > Len(order) THEN [E |-> E, g |-> g, d8 |-> flag]
     ELSE LET r == ReloadOne(E, g, order[i])
-             later == {order[j] : j \in (i + 1)..Len(order)}
-             risky == r.ok /\ (r.deps \cap later) # {}
+             inPass == {order[j] : j \in 1..Len(order)} \ {order[i]}
+             before == DepClosure(g0, {order[i]}, {})
+             risky == r.ok /\ ((r.deps \cap inPass) \ before) # {}
          IN PassLoop(r.E, r.g, order, i + 1, flag \/ risky, g0)
 
 (* run_update *)
@@ -131,7 +140,7 @@ RunPass(E, g, changed) ==
 
 -----------------------------------------------------------------------------
 Init ==
-    /\ env = EmptyEnv(InitSrc, InitDirs)
+    /\ \E s0 \in InitSrcs : env = EmptyEnv(s0, InitDirs)
     /\ graph = NoGraph /\ toReload = {} /\ evq = <<>> /\ mode = "local"
     /\ ver = [e \in Entries |-> 0] /\ handled = [e \in Entries |-> 0]
     /\ d8 = FALSE
@@ -251,15 +260,19 @@ TakeAll(q, E, g, tr, hd, flag) ==
             THEN LET p == RunPass(E1, dm.g, tr1) IN TakeAll(Tail(q), p.E, p.g, {}, hd1, flag \/ p.d8)
             ELSE TakeAll(Tail(q), E1, dm.g, tr1, hd1, flag)
 
-Sync ==
+SyncFrom(q) ==
     /\ HasReloader
-    /\ LET t  == TakeAll(evq, env, graph, toReload, handled, d8)
+    /\ LET t  == TakeAll(q, env, graph, toReload, handled, d8)
            dm == DrainMsgs(t.E.msgs, t.g, t.tr) IN
         /\ env' = [t.E EXCEPT !.msgs = <<>>]
         /\ graph' = dm.g /\ toReload' = dm.tr /\ handled' = t.hd /\ d8' = t.d8
     /\ evq' = <<>>
-    /\ last' = [op |-> "sync"]
     /\ UNCHANGED <<mode, ver>>
+
+Sync == SyncFrom(evq) /\ last' = [op |-> "sync"]
+
+(* send one batch and wait until the reloader has dequeued it *)
+Notify(batch) == SyncFrom(Append(evq, batch)) /\ last' = [op |-> "notify", batch |-> batch]
 
 (* hot_reload(): Ptr message; cache messages sent before it are applied first *)
 HotReload ==
